@@ -56,11 +56,23 @@ Ltac decide_cases q v :=
            (r_method q) eqn:?, (r_sid q) as [[?i|]|], (r_eio4 q), (r_transport q); cbn;
   try (destruct v as [[[] []]|]; cbn).
 
+(* case analysis along the decision tree: only the outermost scrutinee is split, so the number of cases is the number of leaves *)
+Ltac outer := repeat (cbv beta iota; match goal with |- (match ?x with _ => _ end) = _ -> _ => destruct x eqn:? end).
+
+Lemma decide_early_status q x : decide_early cfg q = Some x -> x = R400 \/ (x = R405 /\ r_method q = MOther).
+Proof. unfold decide_early. outer; intros H; try discriminate; injection H as <-; auto. Qed.
+
 Lemma refusal_status q v x : decide cfg q v = DRefuse x -> x = R400 \/ x = R405.
-Proof. decide_cases q v; intros H; try discriminate; injection H as <-; auto. Qed.
+Proof.
+  unfold decide. destruct (decide_early cfg q) as [y|] eqn:E; [intros H; injection H as <-; destruct (decide_early_status q y E) as [?|[? _]]; auto|].
+  outer; intros H; try discriminate; injection H as <-; auto.
+Qed.
 
 Lemma status_405_only_for_other_methods q v : decide cfg q v = DRefuse R405 -> r_method q = MOther.
-Proof. decide_cases q v; intros H; try discriminate; reflexivity. Qed.
+Proof.
+  unfold decide. destruct (decide_early cfg q) as [y|] eqn:E; [intros H; injection H as ->; destruct (decide_early_status q _ E) as [?|[_ ?]]; [discriminate | assumption]|].
+  outer; intros H; try discriminate; first [assumption | reflexivity].
+Qed.
 
 (* the origin gate comes first: a refused origin is refused whatever else the request says *)
 Lemma origin_gate_first q v : r_origin_refused q = true -> decide cfg q v = DRefuse R400.
@@ -286,7 +298,8 @@ Proof.
   { unfold ws_request_done, bind, emit, stof. cbv beta iota.
     assert (R : forall z, store (snd (fst (reap_if_closed i z))) = store z).
     { intros z. unfold reap_if_closed, bind, in_table, gsess, del_table, modst. cbv beta iota. destruct (nmem i (table z) && _); reflexivity. }
-    specialize (R s1). destruct (reap_if_closed i s1) as [[u s2] o2]. cbn [fst snd] in *.
+    assert (R' : store (snd (fst ((match x with RRaised => ret tt | _ => reap_if_closed i end) s1))) = store s1) by (destruct x; try apply R; reflexivity).
+    destruct ((match x with RRaised => ret tt | _ => reap_if_closed i end) s1) as [[u s2] o2]. cbn [fst snd] in *.
     pose proof (sf_finish me s2) as (F1 & _). unfold stof in F1. destruct (finish me s2) as [[u3 s3] o3]. cbn [fst snd] in *. congruence. }
   unfold stof in *. destruct (ws_request_done me i r x s1) as [[u s2] o2]. cbn [fst snd] in *.
   rewrite !(cur_frame i s1 s2 F). unfold cur, s1. cbn [store set_store]. rewrite alookup_aset_same. reflexivity.
